@@ -518,6 +518,9 @@ func cmdCursor(ss *serverSession) {
 }
 
 func cmdCursors(ss *serverSession) {
+	if du, ok := ss.sc.dbms.(*DbmsUnauth); ok {
+		du.Cursors() // panics, not authorized
+	}
 	ss.PutBool(true).PutInt(len(ss.cursors))
 }
 
